@@ -262,6 +262,24 @@ let rec combine l l' =
      | [] -> []
      | y :: tl' -> (x, y) :: (combine tl0 tl'))
 
+(** val firstn : nat -> 'a1 list -> 'a1 list **)
+
+let rec firstn n l =
+  match n with
+  | O -> []
+  | S n0 -> (match l with
+             | [] -> []
+             | a :: l0 -> a :: (firstn n0 l0))
+
+(** val skipn : nat -> 'a1 list -> 'a1 list **)
+
+let rec skipn n l =
+  match n with
+  | O -> l
+  | S n0 -> (match l with
+             | [] -> []
+             | _ :: l0 -> skipn n0 l0)
+
 (** val nodup : ('a1 -> 'a1 -> bool) -> 'a1 list -> 'a1 list **)
 
 let rec nodup decA = function
@@ -273,6 +291,12 @@ let rec nodup decA = function
 let rec seq start = function
 | O -> []
 | S len0 -> start :: (seq (S start) len0)
+
+(** val repeat : 'a1 -> nat -> 'a1 list **)
+
+let rec repeat x = function
+| O -> []
+| S k -> x :: (repeat x k)
 
 type positive =
 | XI of positive
@@ -778,6 +802,12 @@ let val_ltb a b =
 
 let val_add a b =
   VInt (Z.add (as_int a) (as_int b))
+
+(** val seqZ : z -> nat -> z list **)
+
+let rec seqZ a = function
+| O -> []
+| S k -> a :: (seqZ (Z.add a (Zpos XH)) k)
 
 type oid = nat
 
@@ -5567,6 +5597,463 @@ let init_world sc =
 let run_scenario fuel sc =
   run fuel (map (fun x -> Drv x) sc.sc_script) (init_world sc)
 
+type ending =
+| Completes
+| Fails of err
+| Silent
+
+type sout = val0 list * ending
+
+(** val events : sout -> ev list **)
+
+let events o =
+  app (map (fun x -> Nx x) (fst o))
+    (match snd o with
+     | Completes -> Co :: []
+     | Fails e -> (Er e) :: []
+     | Silent -> [])
+
+(** val parse_script : ev list -> sout option **)
+
+let rec parse_script = function
+| [] -> Some ([], Silent)
+| e0 :: r ->
+  (match e0 with
+   | Nx v ->
+     (match parse_script r with
+      | Some s -> let (xs, en) = s in Some ((v :: xs), en)
+      | None -> None)
+   | Er e -> (match r with
+              | [] -> Some ([], (Fails e))
+              | _ :: _ -> None)
+   | Co -> (match r with
+            | [] -> Some ([], Completes)
+            | _ :: _ -> None))
+
+(** val takewhile : ('a1 -> bool) -> 'a1 list -> 'a1 list **)
+
+let rec takewhile p = function
+| [] -> []
+| x :: r -> if p x then x :: (takewhile p r) else []
+
+(** val dropwhile : ('a1 -> bool) -> 'a1 list -> 'a1 list **)
+
+let rec dropwhile p = function
+| [] -> []
+| x :: r -> if p x then dropwhile p r else x :: r
+
+(** val lastn : nat -> 'a1 list -> 'a1 list **)
+
+let lastn n l =
+  skipn (sub (length l) n) l
+
+(** val dedup : val0 option -> val0 list -> val0 list **)
+
+let rec dedup prev = function
+| [] -> []
+| x :: r ->
+  (match prev with
+   | Some p -> if val_eqb p x then dedup prev r else x :: (dedup (Some x) r)
+   | None -> x :: (dedup (Some x) r))
+
+(** val scanl :
+    (val0 -> val0 -> val0) -> val0 option -> val0 list -> val0 list **)
+
+let rec scanl f acc = function
+| [] -> []
+| x :: r ->
+  let a = match acc with
+          | Some a -> f a x
+          | None -> x in
+  a :: (scanl f (Some a) r)
+
+(** val fold1 : (val0 -> val0 -> val0) -> val0 list -> val0 option **)
+
+let fold1 f = function
+| [] -> None
+| x :: r -> Some (fold_left f r x)
+
+(** val chunks : nat -> nat -> val0 list -> val0 list list **)
+
+let rec chunks fuel n l =
+  match fuel with
+  | O -> []
+  | S k ->
+    (match l with
+     | [] -> []
+     | _ :: _ -> (firstn n l) :: (chunks k n (skipn n l)))
+
+(** val when_complete : ending -> val0 list -> sout **)
+
+let when_complete en ys =
+  match en with
+  | Completes -> (ys, Completes)
+  | _ -> ([], en)
+
+(** val opt_list : val0 option -> val0 list **)
+
+let opt_list = function
+| Some v -> v :: []
+| None -> []
+
+(** val min_f : val0 -> val0 -> val0 **)
+
+let min_f a x =
+  if val_ltb x a then x else a
+
+(** val max_f : val0 -> val0 -> val0 **)
+
+let max_f a x =
+  if val_ltb a x then x else a
+
+(** val demat : val0 list -> ending -> sout **)
+
+let rec demat l en =
+  match l with
+  | [] -> ([], en)
+  | x :: r ->
+    (match x with
+     | VMatN x0 -> let (ys, e') = demat r en in ((x0 :: ys), e')
+     | VMatE e -> ([], (Fails e))
+     | VMatC -> ([], Completes)
+     | _ -> let (ys, e') = demat r en in ((x :: ys), e'))
+
+(** val keys_of : z -> z list -> val0 list -> z list **)
+
+let rec keys_of k seen = function
+| [] -> []
+| x :: r ->
+  let key = key_of k x in
+  if existsb (Z.eqb key) seen
+  then keys_of k seen r
+  else key :: (keys_of k (key :: seen) r)
+
+(** val spec_op : opk -> sout -> sout **)
+
+let spec_op op = function
+| (xs, en) ->
+  (match op with
+   | OMap f -> ((map (app1 f) xs), en)
+   | OFilter p -> ((filter (appp p) xs), en)
+   | OTake n ->
+     ((firstn n xs),
+       (if Nat.leb (Nat.max n (S O)) (length xs) then Completes else en))
+   | OTakeWhile p ->
+     ((takewhile (appp p) xs),
+       (if forallb (appp p) xs then en else Completes))
+   | OTakeLast n -> when_complete en (lastn n xs)
+   | OSkip n -> ((skipn n xs), en)
+   | OSkipLast n -> ((firstn (sub (length xs) n) xs), en)
+   | OSkipWhile p -> ((dropwhile (appp p) xs), en)
+   | OFirst ->
+     ((firstn (S O) xs),
+       (if Nat.leb (S O) (length xs) then Completes else en))
+   | OLast -> when_complete en (lastn (S O) xs)
+   | OElementAt n ->
+     ((match n with
+       | O -> []
+       | S m -> (match nth_error xs m with
+                 | Some v -> v :: []
+                 | None -> [])),
+       (if Nat.leb (Nat.max n (S O)) (length xs) then Completes else en))
+   | ODistinct -> ((dedup None xs), en)
+   | OScan f -> ((scanl (app2 f) None xs), en)
+   | OReduce f -> when_complete en (opt_list (fold1 (app2 f) xs))
+   | OCount -> when_complete en ((VInt (Z.of_nat (length xs))) :: [])
+   | OSum -> when_complete en (opt_list (fold1 val_add xs))
+   | OSumAndCount ->
+     when_complete en
+       (match fold1 val_add xs with
+        | Some s -> (VList (s :: ((VInt (Z.of_nat (length xs))) :: []))) :: []
+        | None -> [])
+   | OMin -> when_complete en (opt_list (fold1 min_f xs))
+   | OMax -> when_complete en (opt_list (fold1 max_f xs))
+   | OAll p ->
+     if forallb (appp p) xs
+     then when_complete en ((VBool true) :: [])
+     else (((VBool false) :: []), Completes)
+   | OContains t ->
+     if existsb (fun x -> val_eqb x t) xs
+     then (((VBool true) :: []), Completes)
+     else (match en with
+           | Silent -> ([], Silent)
+           | _ -> (((VBool false) :: []), Completes))
+   | ODefaultIfEmpty d ->
+     (match xs with
+      | [] ->
+        (match en with
+         | Completes -> ((d :: []), Completes)
+         | _ -> (xs, en))
+      | _ :: _ -> (xs, en))
+   | OIgnore -> ([], en)
+   | OStartWith ys -> ((app ys xs), en)
+   | OBuffer n ->
+     let cs = chunks (S (length xs)) n xs in
+     ((map (fun x -> VList x)
+        (match en with
+         | Completes -> cs
+         | _ -> filter (fun c -> Nat.eqb (length c) n) cs)), en)
+   | OWindow n -> ((map (fun _ -> VObs O) (chunks (S (length xs)) n xs)), en)
+   | OGroupBy k -> ((map (fun _ -> VObs O) (keys_of k [] xs)), en)
+   | OMaterialize ->
+     (match en with
+      | Completes ->
+        ((app (map (fun x -> VMatN x) xs) (VMatC :: [])), Completes)
+      | Fails e ->
+        ((app (map (fun x -> VMatN x) xs) ((VMatE e) :: [])), Completes)
+      | Silent -> ((map (fun x -> VMatN x) xs), Silent))
+   | ODematerialize -> demat xs en
+   | _ -> (xs, en))
+
+(** val spec_children : opk -> sout -> sout list **)
+
+let spec_children op = function
+| (xs, en) ->
+  (match op with
+   | OWindow n ->
+     let cs = chunks (S (length xs)) n xs in
+     map (fun c -> (c, (if Nat.eqb (length c) n then Completes else en))) cs
+   | OGroupBy k ->
+     map (fun key -> ((filter (fun x -> Z.eqb (key_of k x) key) xs), en))
+       (keys_of k [] xs)
+   | _ -> [])
+
+(** val in_c02 : opk -> bool **)
+
+let in_c02 = function
+| OBuffer n -> (match n with
+                | O -> false
+                | S _ -> true)
+| OWindow n -> (match n with
+                | O -> false
+                | S _ -> true)
+| OMerge -> false
+| OFlatMap _ -> false
+| OConcat -> false
+| OZip -> false
+| OCombineLatest _ -> false
+| OAmb -> false
+| OTakeUntil -> false
+| OSkipUntil -> false
+| OSample -> false
+| OSwitchOnNext -> false
+| OSequenceEqual -> false
+| ORetry _ -> false
+| ORetryWhen _ -> false
+| OResume -> false
+| _ -> true
+
+(** val repeat_bound : nat **)
+
+let repeat_bound =
+  S (S (S (S (S (S (S (S (S (S (S (S (S (S (S (S (S (S (S (S (S (S (S (S (S
+    (S (S (S (S (S (S (S (S (S (S (S (S (S (S (S
+    O)))))))))))))))))))))))))))))))))))))))
+
+(** val spec_pipe : (nat -> ev list list) -> pipe -> sout option **)
+
+let rec spec_pipe scripts0 = function
+| PCold s ->
+  (match scripts0 s with
+   | [] -> Some ([], Silent)
+   | l :: _ -> parse_script l)
+| PJust v -> Some ((v :: []), Completes)
+| PFromIter l -> Some (l, Completes)
+| PRange (a, n) ->
+  Some ((map (fun x -> VInt x) (seqZ a (Z.to_nat n))), Completes)
+| PEmpty -> Some ([], Completes)
+| PNever -> Some ([], Silent)
+| PError e -> Some ([], (Fails e))
+| PRepeat v -> Some ((repeat v repeat_bound), Silent)
+| PDefer q -> spec_pipe scripts0 q
+| PStart _ -> Some (((VInt Z0) :: []), Completes)
+| PFromResult r ->
+  (match r with
+   | Inl v -> Some ((v :: []), Completes)
+   | Inr e -> Some ([], (Fails e)))
+| POp (op, src, others) ->
+  (match others with
+   | [] ->
+     if in_c02 op
+     then (match spec_pipe scripts0 src with
+           | Some i -> Some (spec_op op i)
+           | None -> None)
+     else None
+   | _ :: _ -> None)
+| _ -> None
+
+(** val spec_pipe_children : (nat -> ev list list) -> pipe -> sout list **)
+
+let spec_pipe_children scripts0 = function
+| POp (op, src, others) ->
+  (match others with
+   | [] ->
+     (match spec_pipe scripts0 src with
+      | Some i -> spec_children op i
+      | None -> [])
+   | _ :: _ -> [])
+| _ -> []
+
+(** val has_repeat : pipe -> bool **)
+
+let rec has_repeat = function
+| PRepeat _ -> true
+| PDefer q -> has_repeat q
+| POp (_, src, _) -> has_repeat src
+| _ -> false
+
+type lst = { l_st : ostate; l_done : bool; l_up : bool }
+
+(** val lst0 : opk -> lst **)
+
+let lst0 op =
+  { l_st = (init_state op []); l_done = false; l_up = true }
+
+(** val l_set_st : lst -> ostate -> lst **)
+
+let l_set_st s v =
+  { l_st = v; l_done = s.l_done; l_up = s.l_up }
+
+(** val l_end : lst -> lst **)
+
+let l_end s =
+  { l_st = s.l_st; l_done = true; l_up = false }
+
+(** val l_abort : lst -> lst **)
+
+let l_abort s =
+  { l_st = s.l_st; l_done = s.l_done; l_up = false }
+
+(** val loc_act : act -> lst -> lst * ev list **)
+
+let rec loc_act a s =
+  match a with
+  | SinkNext v -> if s.l_done then (s, []) else (s, ((Nx v) :: []))
+  | SinkError e ->
+    if s.l_done then ((l_abort s), []) else ((l_end s), ((Er e) :: []))
+  | SinkComplete _ ->
+    if s.l_done then ((l_abort s), []) else ((l_end s), (Co :: []))
+  | SinkCompleteForce ->
+    if s.l_done then ((l_abort s), []) else ((l_end s), (Co :: []))
+  | UpAbort _ -> ((l_abort s), [])
+  | Finalize -> ((l_end s), [])
+  | IfSub (yes, no) ->
+    let rec go l s0 =
+      match l with
+      | [] -> (s0, [])
+      | a0 :: r ->
+        let (s1, o1) = loc_act a0 s0 in
+        let (s2, o2) = go r s1 in (s2, (app o1 o2))
+    in go (if s.l_done then no else yes) s
+  | AFlush l -> if s.l_done then (s, []) else (s, (map (fun x -> Nx x) l))
+  | AWith (_, body) ->
+    let rec go l s0 =
+      match l with
+      | [] -> (s0, [])
+      | a0 :: r ->
+        let (s1, o1) = loc_act a0 s0 in
+        let (s2, o2) = go r s1 in (s2, (app o1 o2))
+    in go body s
+  | ASetFlag b -> ((l_set_st s (st_set_flag s.l_st b)), [])
+  | _ -> (s, [])
+
+(** val loc_acts : act list -> lst -> lst * ev list **)
+
+let rec loc_acts l s =
+  match l with
+  | [] -> (s, [])
+  | a :: r ->
+    let (s1, o1) = loc_act a s in
+    let (s2, o2) = loc_acts r s1 in (s2, (app o1 o2))
+
+(** val loc_step : opk -> lst -> ev -> lst * ev list **)
+
+let loc_step op s e =
+  if s.l_up
+  then let (st', acts) = handler op PNever [] s.l_st O O O e in
+       let s1 = l_set_st s st' in
+       let s2 = if is_term e then l_abort s1 else s1 in loc_acts acts s2
+  else (s, [])
+
+(** val loc_feed : opk -> lst -> ev list -> lst * ev list **)
+
+let rec loc_feed op s = function
+| [] -> (s, [])
+| e :: r ->
+  let (s1, o1) = loc_step op s e in
+  let (s2, o2) = loc_feed op s1 r in (s2, (app o1 o2))
+
+(** val loc_run : opk -> ev list -> ev list **)
+
+let loc_run op l =
+  snd (loc_feed op (lst0 op) l)
+
+(** val expand : opk -> opk list **)
+
+let expand op = match op with
+| OFirst -> (OTake (S O)) :: (OFwd :: [])
+| OLast -> (OTakeLast (S O)) :: (OFwd :: [])
+| OElementAt n -> (OTake n) :: ((OSkip (sub n (S O))) :: (OFwd :: []))
+| OAll p -> (OFilter (neg_pred p)) :: ((OTake (S O)) :: ((OAll p) :: []))
+| OStartWith _ -> OFwd :: []
+| _ -> op :: []
+
+(** val prefix_of : opk -> ev list **)
+
+let prefix_of = function
+| OStartWith l -> map (fun x -> Nx x) l
+| _ -> []
+
+(** val loc_op : opk -> ev list -> ev list **)
+
+let loc_op op l =
+  app (prefix_of op) (fold_left (fun acc o -> loc_run o acc) (expand op) l)
+
+(** val loc_chain : opk list -> ev list -> ev list **)
+
+let loc_chain ops l =
+  fold_left (fun acc o -> loc_op o acc) ops l
+
+(** val loc_node_op : opk -> bool **)
+
+let loc_node_op = function
+| OFirst -> false
+| OLast -> false
+| OElementAt _ -> false
+| OAll _ -> false
+| OStartWith _ -> false
+| OBuffer n -> (match n with
+                | O -> false
+                | S _ -> true)
+| OWindow n -> (match n with
+                | O -> false
+                | S _ -> true)
+| OMerge -> false
+| OFlatMap _ -> false
+| OConcat -> false
+| OZip -> false
+| OCombineLatest _ -> false
+| OAmb -> false
+| OTakeUntil -> false
+| OSkipUntil -> false
+| OSample -> false
+| OSwitchOnNext -> false
+| OSequenceEqual -> false
+| ORetry _ -> false
+| ORetryWhen _ -> false
+| OResume -> false
+| _ -> true
+
+(** val loc_derived_op : opk -> bool **)
+
+let loc_derived_op = function
+| OFirst -> true
+| OLast -> true
+| OElementAt _ -> true
+| OAll _ -> true
+| OStartWith _ -> true
+| _ -> false
+
 type observation = { ob_out : nat; ob_log : ((nat * nat) * ev) list;
                      ob_tap : (nat * ev) list;
                      ob_probes : (((nat * nat) * nat) * bool) list;
@@ -5609,3 +6096,194 @@ let rec contract_ok = function
 
 let c01_oracle o =
   forallb (fun u -> contract_ok (ulog u o.ob_log)) (users o.ob_log)
+
+(** val val_sim : val0 -> val0 -> bool **)
+
+let rec val_sim a b =
+  match a with
+  | VList l1 ->
+    (match b with
+     | VList l2 ->
+       let rec go l3 l4 =
+         match l3 with
+         | [] -> (match l4 with
+                  | [] -> true
+                  | _ :: _ -> false)
+         | x :: r ->
+           (match l4 with
+            | [] -> false
+            | y :: s -> (&&) (val_sim x y) (go r s))
+       in go l1 l2
+     | _ -> val_eqb a b)
+  | VMatN x -> (match b with
+                | VMatN y -> val_sim x y
+                | _ -> val_eqb a b)
+  | VObs _ -> (match b with
+               | VObs _ -> true
+               | _ -> val_eqb a b)
+  | _ -> val_eqb a b
+
+(** val ev_sim : ev -> ev -> bool **)
+
+let ev_sim a b =
+  match a with
+  | Nx x -> (match b with
+             | Nx y -> val_sim x y
+             | _ -> false)
+  | Er x -> (match b with
+             | Er y -> Nat.eqb x y
+             | _ -> false)
+  | Co -> (match b with
+           | Co -> true
+           | _ -> false)
+
+(** val evs_sim : ev list -> ev list -> bool **)
+
+let rec evs_sim a b =
+  match a with
+  | [] -> (match b with
+           | [] -> true
+           | _ :: _ -> false)
+  | x :: r ->
+    (match b with
+     | [] -> false
+     | y :: s -> (&&) (ev_sim x y) (evs_sim r s))
+
+(** val scripts_of : scenario -> nat -> ev list list **)
+
+let scripts_of sc s =
+  fst (nth s sc.sc_scripts ([], false))
+
+(** val is_windowing : opk -> bool **)
+
+let is_windowing = function
+| OWindow _ -> true
+| OGroupBy _ -> true
+| _ -> false
+
+(** val inner_windowing : pipe -> bool **)
+
+let rec inner_windowing = function
+| PDefer q -> inner_windowing q
+| POp (_, src, _) ->
+  let rec below = function
+  | PDefer s -> below s
+  | POp (o, s, _) -> (||) (is_windowing o) (below s)
+  | _ -> false
+  in below src
+| _ -> false
+
+(** val c02_oracle : scenario -> observation -> bool option **)
+
+let c02_oracle sc o =
+  match sc.sc_script with
+  | [] -> None
+  | a :: l ->
+    (match a with
+     | DSub (k, p, rs) ->
+       (match k with
+        | O ->
+          (match rs with
+           | [] ->
+             (match l with
+              | [] ->
+                if inner_windowing p
+                then None
+                else (match spec_pipe (scripts_of sc) p with
+                      | Some exp ->
+                        if (&&) (has_repeat p)
+                             (negb
+                               (match snd exp with
+                                | Completes -> true
+                                | _ -> false))
+                        then None
+                        else let kids = spec_pipe_children (scripts_of sc) p
+                             in
+                             Some
+                             ((&&)
+                               ((&&)
+                                 ((&&) (Nat.eqb o.ob_out O)
+                                   (evs_sim (ulog (uenc (UTop O)) o.ob_log)
+                                     (events exp)))
+                                 (forallb (fun ik ->
+                                   evs_sim
+                                     (ulog (uenc (UChild (fst ik))) o.ob_log)
+                                     (events (snd ik)))
+                                   (combine (seq O (length kids)) kids)))
+                               (forallb (fun u ->
+                                 match udec u with
+                                 | UTop k0 -> Nat.eqb k0 O
+                                 | UChild j -> Nat.ltb j (length kids))
+                                 (users o.ob_log)))
+                      | None -> None)
+              | _ :: _ -> None)
+           | _ :: _ -> None)
+        | S _ -> None)
+     | _ -> None)
+
+(** val chain_of : pipe -> (pipe * opk list) option **)
+
+let rec chain_of p = match p with
+| PHot _ -> None
+| PInner _ -> None
+| PConn _ -> None
+| POp (op, src, others) ->
+  (match others with
+   | [] ->
+     (match chain_of src with
+      | Some p0 -> let (s, ops) = p0 in Some (s, (app ops (op :: [])))
+      | None -> None)
+   | _ :: _ -> None)
+| _ -> Some (p, [])
+
+(** val loc_supported : opk -> bool **)
+
+let loc_supported op =
+  (||) (loc_node_op op) (loc_derived_op op)
+
+(** val source_events : scenario -> pipe -> ev list option **)
+
+let source_events sc p = match p with
+| PCold s -> (match scripts_of sc s with
+              | [] -> Some []
+              | l :: _ -> Some l)
+| _ ->
+  (match spec_pipe (scripts_of sc) p with
+   | Some i -> Some (events i)
+   | None -> None)
+
+(** val c02_loc_oracle : scenario -> observation -> bool option **)
+
+let c02_loc_oracle sc o =
+  match sc.sc_script with
+  | [] -> None
+  | a :: l ->
+    (match a with
+     | DSub (k, p, rs) ->
+       (match k with
+        | O ->
+          (match rs with
+           | [] ->
+             (match l with
+              | [] ->
+                (match chain_of p with
+                 | Some p0 ->
+                   let (s, ops) = p0 in
+                   if forallb loc_supported ops
+                   then (match source_events sc s with
+                         | Some evs ->
+                           let out0 = loc_chain ops evs in
+                           if (&&) (has_repeat p)
+                                (negb (existsb is_term out0))
+                           then None
+                           else Some
+                                  ((&&) (Nat.eqb o.ob_out O)
+                                    (evs_sim (ulog (uenc (UTop O)) o.ob_log)
+                                      out0))
+                         | None -> None)
+                   else None
+                 | None -> None)
+              | _ :: _ -> None)
+           | _ :: _ -> None)
+        | S _ -> None)
+     | _ -> None)
